@@ -174,7 +174,8 @@ func VerifH_C01_one_seed() {
 
 	// ---- the site ----
 	root := base + "/"
-	pool := []string{base + "/a.png", base + "/b.css", base + "/a.png", "https://web.archive.org/x", "ftp://files.example/f", base + "/missing.png"}
+	pool := []string{base + "/a.png", base + "/b.css", base + "/a.png", "https://web.archive.org/x", "ftp://files.example/f", base + "/missing.png",
+		base + "/r.js", base + "/r2.js"}
 	ada(root, "http:", "site.example", root)
 	ada(base+"/a.png", "http:", "site.example", base+"/a.png")
 	ada(base+"/b.css", "http:", "site.example", base+"/b.css")
@@ -188,6 +189,14 @@ func VerifH_C01_one_seed() {
 	verifmodel.Site[base+"/c.woff"] = &verifmodel.Page{Status: 200}
 	verifmodel.Site[base+"/missing.png"] = &verifmodel.Page{Status: 404}
 	verifmodel.Site[base+"/next"] = &verifmodel.Page{Status: 200, Kind: "html"}
+	// assets that redirect: one to an excluded host, one to an in-scope image
+	ada(base+"/r.js", "http:", "site.example", base+"/r.js")
+	ada(base+"/r2.js", "http:", "site.example", base+"/r2.js")
+	ada(base+"/t.png", "http:", "site.example", base+"/t.png")
+	ada("https://web.archive.org/y", "https:", "web.archive.org", "https://web.archive.org/y")
+	verifmodel.Site[base+"/r.js"] = &verifmodel.Page{Status: 301, Location: "https://web.archive.org/y"}
+	verifmodel.Site[base+"/r2.js"] = &verifmodel.Page{Status: 301, Location: base + "/t.png"}
+	verifmodel.Site[base+"/t.png"] = &verifmodel.Page{Status: 200}
 	rootKind := verifrt.Choice("root-answers", 5)
 	rp := &verifmodel.Page{Status: 200, Kind: "html"}
 	switch rootKind {
@@ -220,7 +229,17 @@ func VerifH_C01_one_seed() {
 	finishCh := make(chan *models.Item, 4)
 	produceCh := make(chan *models.Item, 4)
 	must(reactor.Start(1, reactorOut))
-	must(preprocessor.Start(reactorOut, preOut))
+	// a relay between reactor and preprocessor counts the passes a seed makes through the pipeline
+	preIn := make(chan *models.Item, 1)
+	passes := 0
+	verifrt.Go(func() {
+		for it := range reactorOut {
+			passes++
+			verifrt.Assert(passes <= 8, "C06 every seed finishes after a bounded number of pipeline passes")
+			preIn <- it
+		}
+	})
+	must(preprocessor.Start(preIn, preOut))
 	must(archiver.Start(preOut, archOut))
 	must(postprocessor.Start(archOut, postOut))
 	must(finisher.Start(postOut, finishCh, produceCh))
@@ -259,18 +278,25 @@ func VerifH_C01_one_seed() {
 	verifrt.Assert(pending == 0, "C01 the seed is finished only after every URL of its tree is done")
 	// every URL was answered at most once (never fetched twice within the tree), the root was attempted
 	verifrt.Assert(attempts(root) >= 1, "C01 the seed URL is attempted")
-	for _, u := range []string{root, base + "/a.png", base + "/b.css", base + "/c.woff", base + "/missing.png", base + "/next"} {
+	for _, u := range []string{root, base + "/a.png", base + "/b.css", base + "/c.woff", base + "/missing.png", base + "/next", base + "/r.js", base + "/r2.js", base + "/t.png"} {
 		want503 := u == root && rootKind == 3
 		if !want503 {
 			verifrt.Assert(fetched(u) <= 1, "C08 no URL of the tree is fetched twice")
 		}
 	}
-	verifrt.Assert(fetched("https://web.archive.org/x") == 0 && attempts("ftp://files.example/f") == 0, "C05 out-of-scope assets are never requested")
+	verifrt.Assert(fetched("https://web.archive.org/x") == 0 && fetched("https://web.archive.org/y") == 0 && attempts("ftp://files.example/f") == 0, "C05 out-of-scope assets are never requested")
 	pageOK := rootKind == 0 || rootKind == 4 && cfg.MaxRetry >= 1
 	if pageOK && !cfg.DisableAssetsCapture {
 		for i := 0; i < nAssets; i++ {
 			a := rp.Assets[i]
-			if a == base+"/a.png" || a == base+"/b.css" || a == base+"/missing.png" {
+			if a == base+"/r2.js" && cfg.MaxRedirect >= 1 {
+				verifrt.Cover("asset-redirect-followed")
+				verifrt.Assert(fetched(base+"/t.png") == 1, "C01 the redirect target of an asset is fetched")
+			}
+			if a == base+"/r.js" {
+				verifrt.Cover("asset-redirects-out-of-scope")
+			}
+			if a == base+"/a.png" || a == base+"/b.css" || a == base+"/missing.png" || a == base+"/r.js" || a == base+"/r2.js" {
 				verifrt.Cover("asset-fetched")
 				verifrt.Assert(fetched(a) == 1, "C01 every in-scope asset of the page is fetched")
 			}
